@@ -11,6 +11,7 @@ import NixModel.Props.C12Links
 import NixModel.Props.C12Data
 import NixModel.Props.C12Copies
 import NixModel.Props.C12Frames
+import NixModel.Props.C12PropCreate
 
 /-!
 # C12 — a refused operation leaves the file exactly as it was
